@@ -409,7 +409,7 @@ func (g *gateway) setup(ch *chain, seed int64, in In) (*world, [][]byte, *ecdsa.
 	}
 	var chain [][]byte
 	var priv *ecdsa.PrivateKey
-	if in.Kind != "seq" {
+	if in.Kind != "seq" && in.Kind != "race" {
 		if chain, priv, err = w.present(in.Cert); err != nil {
 			return nil, nil, nil, nil, err
 		}
@@ -587,6 +587,95 @@ func (g *gateway) runSession(ch *chain, seed int64, n int, in In, ri rawIn, emit
 			out.Served = append(out.Served, w.project(rc, g.provider))
 		}
 		emit(out)
+	}
+}
+
+// runRace: overlapping handshakes. The chain query for the holder's certificate id is held at a gate; the holder's
+// handshake (step 1) is started and the harness waits -- event driven -- until its query has arrived at the gate, i.e.
+// the handshake sits inside VerifyPeerCertificate; the joiners (steps 2..) are started on connections of their own;
+// the harness waits until every joiner that must look the same id up has arrived at the gate too, and releases it.
+// If the gateway does not send a joiner to the chain at all (it shares the holder's lookup), that second wait ends by
+// its bound instead: the bound is reached only on such code, it can make the harness miss, never accuse.
+func (g *gateway) runRace(ch *chain, seed int64, in In, ri rawIn, emit func(Out)) {
+	w, _, _, col0, err := g.setup(ch, seed, in)
+	if err != nil {
+		emit(Out{Kind: "case", I: in.I, Reg: ri.Reg, Served: []Call{}, Err: err.Error()})
+		return
+	}
+	g.back.unregister(col0) // attribution is per connection
+	type stepRun struct {
+		out   Out
+		chain [][]byte
+		priv  *ecdsa.PrivateKey
+		req   request
+		ok    bool
+	}
+	steps := make([]*stepRun, len(in.Steps))
+	for k, st := range in.Steps {
+		sr := &stepRun{out: Out{Kind: "case", I: in.I + k, Cert: ri.Steps[k].Cert, Reg: ri.Reg, Path: ri.Steps[k].Path, Served: []Call{}, Seq: in.I}}
+		steps[k] = sr
+		if sr.chain, sr.priv, err = w.present(st.Cert); err != nil {
+			sr.out.Err = err.Error()
+			continue
+		}
+		if sr.req, err = w.request(st.Path, g.provider); err != nil {
+			sr.out.Err = err.Error()
+			continue
+		}
+		sr.out.URL = sr.req.method + " " + sr.req.path
+		sr.ok = true
+	}
+	run := func(sr *stepRun, done *sync.WaitGroup) {
+		defer done.Done()
+		col := g.back.register()
+		defer g.back.unregister(col)
+		c := g.newClient(col, sr.chain, sr.priv, false, nil)
+		res := c.do(sr.req)
+		c.close()
+		sr.out.Tls, sr.out.TlsErr, sr.out.Status, sr.out.Err = res.tls, res.tlsErr, res.status, res.err
+		for _, rc := range col.take() {
+			sr.out.Served = append(sr.out.Served, w.project(rc, g.provider))
+		}
+	}
+	holder := in.Steps[0].Cert
+	owner, oerr := w.account(holder.Cn)
+	serial := w.serials[holder.Serial]
+	if !steps[0].ok || oerr != nil || serial == nil {
+		for _, sr := range steps {
+			if sr.out.Err == "" {
+				sr.out.Err = "race: holder cannot be set up"
+			}
+			emit(sr.out)
+		}
+		return
+	}
+	gt := ch.hold(owner.String(), serial.String())
+	var done sync.WaitGroup
+	done.Add(1)
+	go run(steps[0], &done)
+	if !gt.waitArrived(1, 120*time.Second) {
+		steps[0].out.Err = "race: the holder's chain query never arrived at the gate"
+	}
+	expect := 1
+	for k := 1; k < len(steps); k++ {
+		if !steps[k].ok {
+			continue
+		}
+		c := in.Steps[k].Cert
+		if c.ChainLen == 1 && c.Cn == holder.Cn && c.Serial == holder.Serial && c.Issuer == "self" {
+			expect++ // verified on its own, this handshake looks the same certificate id up
+		}
+		done.Add(1)
+		go run(steps[k], &done)
+	}
+	gt.waitArrived(expect, 3*time.Second)
+	ch.unhold(owner.String(), serial.String(), gt)
+	done.Wait()
+	for _, sr := range steps {
+		if sr.ok { // the verification callback on its own, after the fact
+			g.vpc(sr.chain, &sr.out)
+		}
+		emit(sr.out)
 	}
 }
 
@@ -778,7 +867,7 @@ func Main(args []string) int {
 			return 2
 		}
 		switch in.Kind {
-		case "case", "resume", "seq":
+		case "case", "resume", "seq", "race":
 			single = append(single, job{in, ri})
 		case "session":
 			if in.Burst {
@@ -815,6 +904,8 @@ func Main(args []string) int {
 						emit(g.runResume(ch, *seed, j.in, j.ri))
 					} else if j.in.Kind == "seq" {
 						g.runSeq(ch, *seed, j.in, j.ri, emit)
+					} else if j.in.Kind == "race" {
+						g.runRace(ch, *seed, j.in, j.ri, emit)
 					} else {
 						emit(g.runCase(ch, *seed, j.in, j.ri))
 					}
